@@ -156,20 +156,31 @@ func (r *lhRun) newPeer(ctx context.Context, name string, nodePort int) (*lhPeer
 		}
 	}()
 	ma, _ := multiaddr.NewMultiaddr(fmt.Sprintf("/ip4/127.0.0.1/udp/%d/quic", nodePort))
-	if err := h.Connect(ctx, peer.AddrInfo{ID: r.nodeID, Addrs: []multiaddr.Multiaddr{ma}}); err != nil {
-		return nil, err
-	}
+	// A connection made before the node's GossipSub exists may never be noticed by it (the host listens before
+	// p2p.Run creates its pubsub): reconnect every 2 s until the node's subscription is visible.
 	t0 := time.Now()
 	for {
-		for _, id := range th.ListPeers() {
-			if id == r.nodeID {
-				return p, nil
+		if err := h.Connect(ctx, peer.AddrInfo{ID: r.nodeID, Addrs: []multiaddr.Multiaddr{ma}}); err != nil {
+			if time.Since(t0) > 20*time.Second {
+				return nil, err
 			}
+			time.Sleep(50 * time.Millisecond)
+			continue
 		}
-		if time.Since(t0) > 20*time.Second {
+		t1 := time.Now()
+		for time.Since(t1) < 2*time.Second {
+			for _, id := range th.ListPeers() {
+				if id == r.nodeID {
+					return p, nil
+				}
+			}
+			time.Sleep(5 * time.Millisecond)
+		}
+		if time.Since(t0) > 30*time.Second {
 			return nil, fmt.Errorf("the node never subscribed to the topic")
 		}
-		time.Sleep(5 * time.Millisecond)
+		_ = h.Network().ClosePeer(r.nodeID)
+		time.Sleep(20 * time.Millisecond)
 	}
 }
 
